@@ -81,6 +81,15 @@ def gen_scenario(rng: random.Random, sid, n_members=None, n_faults=None, quiet=1
     return sc
 
 
+def old_broker(sc, rng, profile=None):
+    """the same scenario against an older broker release: every API capped at that release's highest version"""
+    from simkit import profiles
+    name = profile or rng.choice(list(profiles.BROKER_PROFILES))
+    sc["api_ranges"] = profiles.api_ranges(name)
+    sc["family"] = "old-broker:" + name
+    return sc
+
+
 def run_scenarios(scs, timeout=900, shards=None):
     if not scs:
         return []
